@@ -252,6 +252,14 @@ func (t *SchedTracer) observe(ctx string, hold *deferKey) []string {
 			}
 			t.emit("%s", sb.String())
 		}
+		nodeStateEmitted := false
+		if c.cached != p.cached && c.cached == "running" && ctx != "D" {
+			// a node becomes running before its forks act (same scheduler pass)
+			line := fmt.Sprintf("nodestate %d %s", ni, stName(c.cached))
+			t.emit("%s", line)
+			nodeStateEmitted = true
+			changed = true
+		}
 		for pos, f := range c.forks {
 			fi, _ := t.modelFork(n, pos, f.id)
 			pf := p.byIx[fi]
@@ -277,7 +285,13 @@ func (t *SchedTracer) observe(ctx string, hold *deferKey) []string {
 					return
 				}
 				for _, s := range add {
-					line := fmt.Sprintf("%s %d %d %s %s", ctx, ni, fi, obj, s)
+					ectx := ctx
+					if ctx == "D" && obj == "fork" {
+						// fork-level sentinels are only ever written by mrp itself, and then
+						// seen at once: one that shows up at restart was written while re-attaching
+						ectx = "W"
+					}
+					line := fmt.Sprintf("%s %d %d %s %s", ectx, ni, fi, obj, s)
 					if hold != nil && hold.n == n && hold.fpos == pos && hold.obj == obj {
 						held = append(held, line)
 					} else {
@@ -304,9 +318,9 @@ func (t *SchedTracer) observe(ctx string, hold *deferKey) []string {
 				changed = true
 			}
 		}
-		if c.cached != p.cached {
+		if c.cached != p.cached && !nodeStateEmitted {
 			line := fmt.Sprintf("nodestate %d %s", ni, stName(c.cached))
-			if hold != nil {
+			if hold != nil && hold.n == n {
 				held = append(held, line)
 			} else {
 				t.emit("%s", line)
@@ -328,7 +342,7 @@ func (t *SchedTracer) observe(ctx string, hold *deferKey) []string {
 					fmt.Fprintf(&sb, ",%d=%s", ci, stName(ch.state))
 				}
 			}
-			if hold == nil {
+			if hold == nil || hold.n != n {
 				t.emit("%s", sb.String())
 			} else {
 				held = append(held, sb.String())
